@@ -48,8 +48,8 @@ RULE = ("case kinds: dirty = 0-4 earlier runs (other tables, chunk sizes, prefix
         "chunk and level files: property alone (result files and saved models as in a clean directory, models compared without "
         "scikit-learn's wall-clock timings; PINs as in the clean run; nothing else new, nothing else changed). "
         "rollup = mokapot.brew_rollup.main on the result files of a real run, destination (= or != source) holding temp.<level>s / "
-        "result files of earlier rollups (completed / failed / killed), garbage and near misses: property alone; its temp files "
-        "staying behind is the known finding brew_rollup:temp-files-remain. "
+        "result files of earlier rollups (completed / failed / killed), garbage and near misses: property alone (its temp files "
+        "must be gone after a successful run: repaired in /repo, 2c987dd). "
         "crash = one run killed before operation k for every k, directory compared with the model's exec_crash k; verify = the CLI's "
         "PIN verify step with / without a pre-existing <pin>.tsv (PINs of 1-6 PSMs, PINs without PSMs, and 2-3 PINs in one call with "
         "leftovers next to some, names with dots / blanks, paths relative to the working directory); strace = system-call trace of a "
@@ -1853,12 +1853,15 @@ def _run_rollup(c):
                     ends.append(_rollup_exec(r, rsrc, dest, _tap_for(r, dest)))
                 _rollup_junk(c["junk"], dest, obs)
             before = _tree(dest)
-            end = _rollup_exec(obs, src, dest, IoTap(dest))
+            tap = IoTap(dest)
+            end = _rollup_exec(obs, src, dest, tap)
             after = _tree(dest)
             res[which] = {"end": end, "before": before, "after": after, "ends": ends,
+                          "touched": sorted({str(x) for t in tap.trace for x in t[1:] if isinstance(x, str)}),
                           "bytes": {fn: (Path(dest) / fn).read_bytes().decode("latin1") for fn in after if fn not in before or before[fn] != after[fn]}}
         dirty, clean = res["dirty"], res["clean"]
-        own = set(clean["after"]) - src_names
+        # the rollup's own names: what the clean run leaves or wrote and removed again (its temp.<level>s files)
+        own = (set(clean["after"]) | set(clean["touched"])) - src_names
         tags = c.setdefault("tags", [])
         for t in ("overlap", "no-overlap"):
             if t in tags:
@@ -2208,10 +2211,6 @@ def _rollup_independent(r):
 
 
 def finding_key(c, m, i):
-    """known findings: exactly the input class 'a successful brew_rollup run' whose only deviation from the property is that
-    its temp.<level>s files are still there"""
-    if c.get("fn") == "rollup" and i is not None and i[0] == "ok":
-        r = i[1]
-        if r["end"] == "complete" and r["clean_end"] == "complete" and r["temp_left"] and _rollup_independent(r) is None:
-            return "brew_rollup:temp-files-remain"
+    """nothing is classified: the finding brew_rollup:temp-files-remain is repaired in /repo (2c987dd); a temp.<level>s file
+    left by a successful rollup is a violation again"""
     return None
